@@ -213,6 +213,9 @@ def shape_faults(doc):
         yield name, d
     for op in ("$or", "$and", "$and_any_order", "$not"):
         yield f"empty_group_{op[1:]}", with_pattern(pat + [{op: []}])
+    # ... the same in OPERAND position (a different node class compiles it)
+    yield "not_arity_2_operand", with_pattern([{"mov": [{"$not": ["%rax", "%rbx"]}, "%rbx"]}] + pat[1:])
+    yield "not_arity_0_operand", with_pattern([{"mov": [{"$not": []}, "%rbx"]}] + pat[1:])
     yield "not_arity_2", with_pattern(pat + [{"$not": ["a", "b"]}])
     yield "not_arity_3", with_pattern(pat + [{"$not": ["a", "b", "c"]}])
     yield "deref_without_main_reg", with_pattern([{"mov": [{"$deref": {"constant_offset": "0x8"}}]}] + pat)
@@ -279,6 +282,14 @@ def concrete_faults(run, t):
                     samples.append({"valid_pair": vi, "fault": name, "outcome": outcome})
                 if not loud:
                     run.failure(f"shape/{name}", f"valid pair {vi}, fault {name}, return mode {ret}: {outcome} (no error)", {"kind": "shape", "doc": bad, "fault": name})
+                elif ret == "bool":
+                    # the SAME faulty operation once more in this process: it must be refused every time, not only the first
+                    run.count("fault_evaluations")
+                    try:
+                        res = jasmapi.run_pipeline(copy.deepcopy(bad), LISTING, all_matches=True, ret=ret)
+                        run.failure(f"shape/{name}/repeated", f"valid pair {vi}, fault {name}: raised the first time, returned {res!r} when the same operation was repeated in the process", {"kind": "shape", "doc": bad, "fault": name, "repeat": True})
+                    except Exception:
+                        pass
     # file-level faults, assembly and binary mode
     with jasmapi.scratch() as d:
         rp = os.path.join(d, "r.yaml")
@@ -358,6 +369,11 @@ def main():
 
 def replay(rec):
     if rec.get("kind") == "shape":
+        if rec.get("repeat"):
+            try:
+                jasmapi.run_pipeline(copy.deepcopy(rec["doc"]), LISTING, all_matches=True, ret="bool")
+            except Exception as e:
+                print("first evaluation raised", type(e).__name__)
         try:
             r = jasmapi.run_pipeline(rec["doc"], LISTING, all_matches=True, ret="list")
             print("returned", r)
